@@ -368,18 +368,43 @@ def Builder.processingInstruction (b : Builder) (target : StrSpan) (content : Op
     | none => spans1
   { r.1 with spans := spans2 }
 
-/-- One arm of the `match token` in `_parse`. -/
+/-- The test of `check_qname` (/repo a5fafb0): `prefix.is_empty() && prefix.start() != 0`.
+    xmlparser reports an ABSENT prefix as `"".into()` (a `StrSpan` with start 0 that is not a
+    slice of the source) and a colon with nothing in front of it (`<:a/>`) as an empty SLICE of the
+    source, which cannot start at 0 (a name never stands at the very start of the text). -/
+def StrSpan.bareColon (pfx : StrSpan) : Bool := pfx.text.isEmpty && pfx.start != 0
+
+/-- The error of `check_qname`: `UnknownPrefix("", Span::new(prefix.start(), local.end()))`. -/
+def qnameError (pfx loc : StrSpan) : ParseErr := .unknownPrefix [] ⟨pfx.start, loc.stop⟩
+
+/-- No name of the token is written with a colon and nothing in front of it (`check_qname` lets
+    the token pass). -/
+def Token.prefixOk : Token → Bool
+  | .attribute pfx _ _ _ => !pfx.bareColon
+  | .elementStart pfx _ _ => !pfx.bareColon
+  | .elementEnd (.close pfx _) _ => !pfx.bareColon
+  | _ => true
+
+def tokensPrefixOk (ts : List Token) : Bool := ts.all Token.prefixOk
+
+/-- One arm of the `match token` in `_parse`. `check_qname(&prefix, &local)?` comes first in the
+    `Attribute`, `ElementStart` and `ElementEnd::Close` arms. -/
 def Builder.step (b : Builder) : Token → Step Builder
   | .attribute pfx loc value _ =>
-    if pfx.text == ['x', 'm', 'l', 'n', 's'] then b.prefix loc.text value (Span.fromPrefixName pfx loc)
+    if pfx.bareColon then .err (qnameError pfx loc) b.env
+    else if pfx.text == ['x', 'm', 'l', 'n', 's'] then b.prefix loc.text value (Span.fromPrefixName pfx loc)
     else if pfx.text.isEmpty && loc.text == ['x', 'm', 'l', 'n', 's'] then
       b.prefix [] value (Span.fromPrefixName pfx loc)
     else b.attribute pfx loc value
   | .text t => b.text t
   | .cdata t _ => b.cdata t
-  | .elementStart pfx loc _ => .ok (b.element pfx loc)
+  | .elementStart pfx loc _ =>
+    if pfx.bareColon then .err (qnameError pfx loc) b.env
+    else .ok (b.element pfx loc)
   | .elementEnd .open _ => b.openElement
-  | .elementEnd (.close pfx loc) sp => b.closeElement pfx loc sp
+  | .elementEnd (.close pfx loc) sp =>
+    if pfx.bareColon then .err (qnameError pfx loc) b.env
+    else b.closeElement pfx loc sp
   | .elementEnd .empty sp =>
     match b.openElement with
     | .ok b1 => b1.closeImmediate sp
